@@ -3,6 +3,7 @@ package node
 import (
 	"fmt"
 
+	"github.com/freeconf/yang/fc"
 	"github.com/freeconf/yang/meta"
 	"github.com/freeconf/yang/val"
 	"github.com/freeconf/yang/xpath"
@@ -50,13 +51,25 @@ func (xp xpathImpl) resolvePath(seg *xpath.Path, s *Selection) (*Selection, erro
 		return nil, nil
 	}
 	if meta.IsLeaf(m) {
+		if seg.Expr == nil {
+			// no comparison, true when the leaf has a value
+			leaf, err := s.Find(seg.Ident)
+			if err != nil || leaf == nil {
+				return nil, err
+			}
+			v, err := leaf.Get()
+			if err != nil || v == nil {
+				return nil, err
+			}
+			return s, nil
+		}
 		match, err := xp.resolveExpression(seg.Ident, seg.Expr, s)
 		if err != nil || !match {
 			return nil, err
 		}
 		return s, nil
 	}
-	panic("type not supported " + m.Ident())
+	return nil, fmt.Errorf("%w. '%s' is not something an xpath can select", fc.BadRequestError, m.Ident())
 }
 
 func (xp xpathImpl) resolveExpression(name string, e xpath.Expression, sel *Selection) (bool, error) {
@@ -64,7 +77,7 @@ func (xp xpathImpl) resolveExpression(name string, e xpath.Expression, sel *Sele
 	case *xpath.Operator:
 		return xp.resolveOperator(x, name, sel)
 	}
-	panic("unknown xpath expression")
+	return false, fmt.Errorf("%w. unsupported xpath expression on '%s'", fc.BadRequestError, name)
 }
 
 func (xp xpathImpl) resolveOperator(oper *xpath.Operator, ident string, s *Selection) (bool, error) {
@@ -106,7 +119,7 @@ func (xp xpathImpl) resolveOperator(oper *xpath.Operator, ident string, s *Selec
 			return c <= 0, nil
 		}
 	}
-	panic("unrecognized operator: " + oper.Oper)
+	return false, fmt.Errorf("%w. unrecognized xpath operator '%s'", fc.BadRequestError, oper.Oper)
 }
 
 func (xp xpathImpl) resolveAbsolutePath(s *Selection) (*Selection, error) {
